@@ -412,7 +412,7 @@ var formatOnly = map[string]bool{"assertionfailedf": true, "newassertionwrapped"
 
 func fmtOf(r *R) string {
 	if r.Arg == nil {
-		if formatOnly[r.Op] || (r.Op == "handled" && nin(r, 0) == 2) {
+		if formatOnly[r.Op] || r.F || (r.Op == "handled" && nin(r, 0) == 2) {
 			return fmt.Sprintf(in(r, 0))
 		}
 		return in(r, 0)
